@@ -121,6 +121,7 @@ THEOREM_FUNCS = {
     "C06_parse_ubx_from_source": [_RD[2], _RD[0]], "C06_parse_nmea_from_source": [_RD[3], _RD[1]],
     "C06_parse_rtcm3_from_source": [_RD[4], _RD[0]], "C06_do_error_from_source": [_RD[5]],
     "C06_read_from_source": _RD,
+    "C10_read_from_source_over_socket": _RD,
 }
 
 
